@@ -65,7 +65,11 @@ def make_table(layout, n, be, seed):
                     pool.extend(ALPHA)
                 else:
                     pool.extend(ALPHA[i % 62] + ALPHA[(i // 62 + 7 * i) % 62] + "x" * (w - 2) for i in range(400))
-                    pool[:] = sorted(set(pool))
+                    # half of the words begin with blanks: a text reader that skips rows or fields by scanning
+                    # (rather than by counting) must not eat the leading blanks of the next string cell
+                    pool.extend(" " * (1 + i % max(1, w - 2)) + (ALPHA[i % 62] + ALPHA[(i // 62 + 11 * i) % 62] + "y" * w)[:w - 1 - i % max(1, w - 2)]
+                                for i in range(400))
+                    pool[:] = sorted(set(x for x in pool if len(x) == w and x.strip()))
                 rng.shuffle(pool)
             vals = [pool.pop() for _ in range(k)]
             t[nm] = np.array(vals, dtype=f.dtype).reshape(f.shape)
